@@ -101,13 +101,14 @@ type faultRun struct {
 
 // runFault executes the scenario once with one fault and emits the life-cycle events.
 func runFault(sc *scn.Scenario, em func(vt.Ev), mode string, k int64, baseline *faultRun) *faultRun {
-	gate := strings.TrimPrefix(strings.TrimPrefix(mode, "gate:"), "gateq:")
-	isGate := strings.HasPrefix(mode, "gate:") || strings.HasPrefix(mode, "gateq:")
+	gate := strings.TrimPrefix(strings.TrimPrefix(strings.TrimPrefix(mode, "gate:"), "gateq:"), "gatec:")
+	isGate := strings.HasPrefix(mode, "gate:") || strings.HasPrefix(mode, "gateq:") || strings.HasPrefix(mode, "gatec:")
 	viaQuery := strings.HasPrefix(mode, "gateq:") // cancel through Query.Cancel() instead of the caller's context
+	viaClose := strings.HasPrefix(mode, "gatec:") // ... through Query.Close() called from another goroutine
 	sink := &vt.Sink{}
 	series := run.SeriesOf(sc, sc.Data)
 	dist := sc.CfgInt("dist", 0) == 1
-	honour := mode == "cancel" || mode == "block" || mode == "cancelcall" || strings.HasPrefix(mode, "gate")
+	honour := mode == "cancel" || mode == "block" || mode == "cancelcall" || mode == "closecall" || strings.HasPrefix(mode, "gate")
 	ctx, cancel := context.WithCancel(context.Background())
 	defer cancel()
 	mk := func(ss []vstore.Series, idbase int64) *vstore.Store {
@@ -144,7 +145,7 @@ func runFault(sc *scn.Scenario, em func(vt.Ev), mode string, k int64, baseline *
 	for i, st := range all {
 		snaps[i] = st.Snapshot()
 	}
-	if mode != "none" && mode != "cancelcall" && !isGate {
+	if mode != "none" && mode != "cancelcall" && mode != "closecall" && !isGate {
 		main.Inj = &vstore.Inject{K: k, Kind: mode, Cancel: cancel}
 	}
 	// scheduling points (hook H2): count them; in mode "gate:<point>" cancel the context when the
@@ -165,6 +166,8 @@ func runFault(sc *scn.Scenario, em func(vt.Ev), mode string, k int64, baseline *
 		if hit {
 			if viaQuery && qryForGate != nil {
 				qryForGate.Cancel()
+			} else if viaClose && qryForGate != nil {
+				qryForGate.Close()
 			} else {
 				cancel()
 			}
@@ -200,6 +203,13 @@ func runFault(sc *scn.Scenario, em func(vt.Ev), mode string, k int64, baseline *
 			}
 			qry.Cancel()
 		}()
+	case "closecall":
+		go func() {
+			if k > 0 {
+				time.Sleep(time.Duration(k) * time.Microsecond)
+			}
+			qry.Close()
+		}()
 	}
 	var res *promql.Result
 	timedout := false
@@ -223,12 +233,14 @@ func runFault(sc *scn.Scenario, em func(vt.Ev), mode string, k int64, baseline *
 		}
 	}
 	inj := main.Inj
-	firedNow := mode == "cancelcall"
+	firedNow := mode == "cancelcall" || mode == "closecall"
 	if inj != nil && inj.Fired == 1 {
 		firedNow = true
 		sink.Emit(vt.Ev{"ev": "fired", "at": inj.At})
 	} else if mode == "cancelcall" {
 		sink.Emit(vt.Ev{"ev": "fired", "at": "Cancel()"})
+	} else if mode == "closecall" {
+		sink.Emit(vt.Ev{"ev": "fired", "at": "Close()"})
 	} else if isGate {
 		pmu.Lock()
 		gf := gateFired
@@ -263,6 +275,9 @@ func runFault(sc *scn.Scenario, em func(vt.Ev), mode string, k int64, baseline *
 	rmode := mode
 	if isGate {
 		rmode = "cancel" // for the specification a gate is a cancellation at a scheduling point
+	}
+	if mode == "closecall" {
+		rmode = "cancelcall" // Close() from another goroutine cancels like Cancel() does
 	}
 	em(vt.Ev{"ev": "run", "mode": rmode, "k": k})
 	evs := sink.Drain()
@@ -368,6 +383,9 @@ func famFault(sc *scn.Scenario, em func(vt.Ev)) {
 				for _, k := range ks {
 					runFault(sc, em, "gate:"+p, k, base)
 					runFault(sc, em, "gateq:"+p, k, base)
+					if k%3 == 0 {
+						runFault(sc, em, "gatec:"+p, k, base)
+					}
 				}
 			}
 			continue
@@ -377,6 +395,9 @@ func famFault(sc *scn.Scenario, em func(vt.Ev)) {
 			span := 2*base.dur.Microseconds() + 50
 			for i := 0; i < sc.CfgInt("cancelcalls", 40); i++ {
 				runFault(sc, em, mode, r.Int63n(span), base)
+				if i%4 == 0 {
+					runFault(sc, em, "closecall", r.Int63n(span), base)
+				}
 			}
 			continue
 		}
